@@ -54,7 +54,7 @@ type retPath struct {
 
 // primitives are never inlined: they are the vocabulary the facts are stated in.
 var primitives = map[string]bool{
-	"getStateObject": true, "getOrNewStateObject": true, "createObject": true, "setStateObject": true,
+	"getStateObject": true, "getOrNewStateObject": true, "createObject": true,
 	"setBalance": true, "setNonce": true, "setCode": true, "setState": true, "append": true,
 	"errorf": true, "newObject": true, "sortedDirties": true, "newJournal": true, "newAccessList": true,
 	"isEmpty": true, "commitCtx": true,
@@ -67,6 +67,7 @@ type walker struct {
 	env     map[string]string // local identifier -> canonical text
 	errVars map[string]bool
 	stateRoots map[string]bool // parameters of type *StateDB / *stateObject / *journal / *accessList
+	rootTyp    map[string]string // … and their type name (methods called on them can be followed)
 	effects []effect
 	noCollapse bool     // keep new(big.Int).Set(x) visible (aliasing facts)
 	mutated bool        // a state mutation has been seen in this top-level function
@@ -351,6 +352,23 @@ func rootIdent(e ast.Expr) *ast.Ident {
 	}
 }
 
+func isStateType(tn string) bool {
+	return tn == "*StateDB" || tn == "*stateObject" || tn == "*journal" || tn == "*accessList"
+}
+
+// holdsState: the (bare or not) expression is the receiver, a state parameter, or a local standing for one
+func (w *walker) holdsState(e ast.Expr) bool {
+	id, ok := e.(*ast.Ident)
+	if !ok {
+		return w.isState(e)
+	}
+	if (id.Name == w.recv && w.recv != "") || w.stateRoots[id.Name] {
+		return true
+	}
+	v, ok := w.env[id.Name]
+	return ok && v == "recv"
+}
+
 // isState: the expression denotes StateDB / journal / access list / state-object state
 func (w *walker) isState(e ast.Expr) bool {
 	id := rootIdent(e)
@@ -464,6 +482,12 @@ func (w *walker) calleeDecl(call *ast.CallExpr) (*ast.FuncDecl, ast.Expr) {
 				return fd, f.X
 			}
 		}
+		// a method called on a parameter holding StateDB / state-object state (e.g. `s` in Revert(s *StateDB))
+		if id, ok := f.X.(*ast.Ident); ok && w.stateRoots[id.Name] && w.rootTyp[id.Name] != "" {
+			if fd, ok := w.c.funcs[w.rootTyp[id.Name]+"."+f.Sel.Name]; ok {
+				return fd, f.X
+			}
+		}
 	}
 	return nil, nil
 }
@@ -471,20 +495,28 @@ func (w *walker) calleeDecl(call *ast.CallExpr) (*ast.FuncDecl, ast.Expr) {
 // subWalker prepares a walker for the body of helper fd called as call: receiver and parameters
 // are replaced by the canonical text of the actual arguments
 func (w *walker) subWalker(fd *ast.FuncDecl, call *ast.CallExpr) *walker {
-	sub := &walker{c: w.c, recv: "", recvTyp: w.recvTyp, env: map[string]string{}, errVars: map[string]bool{}, stateRoots: map[string]bool{}, depth: w.depth + 1, mutated: w.mutated, noCollapse: w.noCollapse}
+	sub := &walker{c: w.c, recv: "", recvTyp: w.recvTyp, env: map[string]string{}, errVars: map[string]bool{}, stateRoots: map[string]bool{}, rootTyp: map[string]string{}, depth: w.depth + 1, mutated: w.mutated, noCollapse: w.noCollapse}
 	if rn, rt := recvOf(fd); rn != "" {
 		sub.recvTyp = rt
 		if sel, ok := call.Fun.(*ast.SelectorExpr); ok {
 			sub.env[rn] = w.canon(sel.X)
+			if w.holdsState(sel.X) {
+				sub.stateRoots[rn], sub.rootTyp[rn] = true, rt
+			}
 		} else {
 			sub.env[rn] = "recv"
 		}
 	}
 	i := 0
 	for _, p := range fd.Type.Params.List {
+		tn := typeName(p.Type)
 		for _, n := range p.Names {
 			if i < len(call.Args) {
 				sub.env[n.Name] = w.canon(call.Args[i])
+				// a parameter of a state type bound to the caller's receiver / state parameter IS that state
+				if isStateType(tn) && w.holdsState(call.Args[i]) {
+					sub.stateRoots[n.Name], sub.rootTyp[n.Name] = true, strings.TrimPrefix(tn, "*")
+				}
 			}
 			i++
 		}
@@ -652,6 +684,12 @@ func (w *walker) callEffect(call *ast.CallExpr, g []guard) {
 		for _, a := range call.Args {
 			if fl, ok := a.(*ast.FuncLit); ok && strings.Contains(Nospace(fl.Body), "bytes.Compare(") {
 				by = "bytes.Compare"
+			}
+			// sort.Sort / sort.Stable over a named sort.Interface type: the order is its Less method
+			if conv, ok := a.(*ast.CallExpr); ok && len(conv.Args) == 1 {
+				if less, ok := w.c.funcs[typeName(conv.Fun)+".Less"]; ok && less.Body != nil && strings.Contains(Nospace(less.Body), "bytes.Compare(") {
+					by = "bytes.Compare"
+				}
 			}
 		}
 		w.emit("sort by "+by, g)
@@ -845,12 +883,14 @@ func (c *ctx) analyse(key string) *fnFacts {
 	w := &walker{c: c, recv: rn, recvTyp: rt, env: map[string]string{}, errVars: map[string]bool{}}
 	i := 0
 	w.stateRoots = map[string]bool{}
+	w.rootTyp = map[string]string{}
 	for _, p := range fd.Type.Params.List {
 		tn := typeName(p.Type)
 		for _, n := range p.Names {
 			w.env[n.Name] = fmt.Sprintf("p%d", i)
-			if tn == "*StateDB" || tn == "*stateObject" || tn == "*journal" || tn == "*accessList" {
+			if isStateType(tn) {
 				w.stateRoots[n.Name] = true
+				w.rootTyp[n.Name] = strings.TrimPrefix(tn, "*")
 			}
 			i++
 		}
@@ -1202,6 +1242,7 @@ func main() {
 	repo := Repo()
 	Header(repo)
 	files := ParseDir(repo + "/x/evm/statedb")
+	alignVocabulary(files) // undo consistent renames of unexported names of the discipline's vocabulary (vocab.go)
 	kfiles := ParseDir(repo + "/x/evm/keeper")
 	c := &ctx{funcs: map[string]*ast.FuncDecl{}, consts: map[string]string{}, structs: map[string][]string{}, aliases: map[string]string{}}
 	collect := func(fs []File, prefix string) {
@@ -1297,6 +1338,7 @@ func main() {
 	sort.Strings(revertKeys)
 
 	fmt.Println("From Coq Require Import String List Bool. Import ListNotations. Open Scope string_scope.")
+	printEthereumTx(kfiles)
 	fmt.Println("(* journal entry types: name, fields, what Dirtied() returns *)")
 	fmt.Println("Definition c03_entry_types : list (string * list string * string) := [")
 	for i, j := range jts {
